@@ -160,7 +160,8 @@ def check_bridge_not_titrated(ctx, rule, prog):
     total = mod.func('Group.calculate_total_pka')
     first = None
     for stmt in total.body:
-        if isinstance(stmt, ast.Expr) and isinstance(stmt.value, ast.Constant):
+        from sa.astutil import is_inert_stmt
+        if is_inert_stmt(stmt):
             continue
         first = stmt
         break
@@ -647,7 +648,8 @@ def check_charge_sum_unconditional(ctx, rule, prog):
         cond = [n for n in ast.walk(lp) if isinstance(n, (ast.If, ast.IfExp, ast.Continue, ast.Break,
                                                          ast.Try, ast.While))]
         accs = [s for s in lp.body if isinstance(s, ast.AugAssign) and isinstance(s.op, ast.Add)]
-        ok = it_ok and not cond and len(accs) == len(lp.body) and len(accs) >= 2
+        from sa.astutil import effective
+        ok = it_ok and not cond and len(accs) == len(effective(lp.body)) and len(accs) >= 2
         why = 'iterates %s; %d conditional constructs in the body' % (norm(lp.iter), len(cond))
     ctx.ob(rule, 'charge-sum:every-titratable-group', ok,
            'the total charge adds the folded and unfolded charge of every titratable group without '
